@@ -255,5 +255,14 @@ Proof.
   - exists [IInc [46; 46; 47; 97]], [46; 46; 47; 97]. split; [reflexivity|]. split; [left; reflexivity|]. left. reflexivity.
 Qed.
 
+Lemma selfinclude_diverges : forall fuel, load_pinned fuel fs_selfinclude [[97]] = LOutOfFuel.
+Proof. intros fuel. exact (pinned_diverges fs_selfinclude _ selfinclude_closed fuel [[97]] eq_refl). Qed.
+
+Lemma mutual_diverges : forall fuel, load_pinned fuel fs_mutual [[97]] = LOutOfFuel.
+Proof. intros fuel. exact (pinned_diverges fs_mutual _ mutual_closed fuel [[97]] (or_introl eq_refl)). Qed.
+
+Lemma mutual_reach : reach fs_mutual [[97]] [[115]; [98]].
+Proof. exact (reach_inc fs_mutual [[97]] [[97]] _ [115; 47; 98] (reach_root _ _) eq_refl (or_introl eq_refl)). Qed.
+
 Lemma diamond_loads_twice d : load (fuel_for (fs_diamond d)) (fs_diamond d) [[97]] = LOk [d; d].
 Proof. reflexivity. Qed.
